@@ -261,8 +261,8 @@ def foreign(name, sysm):
         raise HarnessError('foreign event %s failed: %r' % (name, e))
 
 
-FOREIGN_Q = ['other_matrix_negpow_off_raises', 'third_grader_from_same_author_config', 'failing_parse']
-FOREIGN_T = FOREIGN_Q + ['other_grader_deletes_pi', 'other_grader_allow_inf', 'other_grader_identity_dim',
+FOREIGN_Q = ['other_matrix_negpow_off_raises', 'third_grader_from_same_author_config', 'other_grader_deletes_pi']
+FOREIGN_T = FOREIGN_Q + ['failing_parse', 'other_grader_allow_inf', 'other_grader_identity_dim',
                          'other_matrix_negpow_off_ok', 'register_clear_defaults_on_sibling']
 
 
